@@ -529,7 +529,7 @@ func listExt() ([]extPkg, error) {
 
 // ---------------------------------------------------------------- main of the deep pass
 
-func deep(fset *token.FileSet, imp types.Importer, pkgs []*lpkg, sites []site, sorted []sortedRange) string {
+func deep(fset *token.FileSet, imp types.Importer, pkgs []*lpkg, sites []site, sorted []sortedRange) (string, string) {
 	d := &deepCtx{fset: fset, funcs: map[string]*unit{}, bound: map[types.Object][]*unit{},
 		siteOf: map[*ast.RangeStmt]*site{}, declKey: map[*ast.FuncDecl]string{}}
 	for i := range sites {
@@ -588,7 +588,7 @@ func deep(fset *token.FileSet, imp types.Importer, pkgs []*lpkg, sites []site, s
 	plain, cut, err := vtaReach(d.funcs)
 	if err != nil {
 		problem("%v", err)
-		return ""
+		return "", ""
 	}
 	reachOf := func(decl *ast.FuncDecl) bool { return decl != nil && plain[d.declKey[decl]] }
 
@@ -603,6 +603,9 @@ func deep(fset *token.FileSet, imp types.Importer, pkgs []*lpkg, sites []site, s
 		}
 		return "[" + strings.Join(q2, ", ") + "]"
 	}
+	var db strings.Builder
+	db.WriteString("import NA.Model.MapSiteDescr\n/- GENERATED by translate/mapranges (descriptor pass) from the working tree of the repository. Do not edit. -/\nnamespace NA.Gen.MapRangesDescr\nopen NA.C16.D\n\n")
+	db.WriteString("/-- What the body of every unsorted `range` over a map does, read off the source (go/ast + go/types,\ntransitively through the module functions it calls); `opaque` = the translator cannot describe it. -/\ndef descrs : List SiteDescr := [\n")
 	b.WriteString("/-- Transitive view of every `range` over a map of the module. -/\ndef deepSites : List DeepSite := [\n")
 	for i := range sites {
 		s := &sites[i]
@@ -627,6 +630,11 @@ func deep(fset *token.FileSet, imp types.Importer, pkgs []*lpkg, sites []site, s
 		if i == len(sites)-1 {
 			sep = ""
 		}
+		term, note := d.describe(s, sum)
+		if note != "" {
+			fmt.Fprintf(&db, "  -- %s\n", note)
+		}
+		fmt.Fprintf(&db, "  ⟨%s, %s, %s, %d, %s⟩%s\n", q(s.file), q(s.fn), q(s.mapExpr), s.ord, term, sep)
 		fmt.Fprintf(&b, "  ⟨%s, %s, %s, %d, %s, %s, %s, %s, %v⟩%s\n", q(s.file), q(s.fn), q(s.mapExpr), s.ord,
 			q(hex.EncodeToString(h.Sum(nil)[:8])), lst(kindsOf(feats)), q(strings.Join(sortedKeys(feats), " ")), lst(cs), reachOf(s.decl), sep)
 	}
@@ -670,7 +678,7 @@ func deep(fset *token.FileSet, imp types.Importer, pkgs []*lpkg, sites []site, s
 	exts, err := listExt()
 	if err != nil {
 		problem("%v", err)
-		return ""
+		return "", ""
 	}
 	b.WriteString("structure ExtSite where\n  pkg : String\n  file : String\n  fn : String\n  mapExpr : String\n  ord : Nat\n  hash : String\n  cls : String\n  reach : Bool\n  deriving DecidableEq, Repr\n\n")
 	b.WriteString("/-- Third-party packages linked into drc / do-approve. -/\ndef extPackages : List String := " + func() string {
@@ -939,5 +947,6 @@ func deep(fset *token.FileSet, imp types.Importer, pkgs []*lpkg, sites []site, s
 	}
 	fmt.Fprintf(&b, "/-- Declarations of the module with a body / of these reachable from the planning roots (VTA). -/\ndef moduleFunctions : Nat := %d\ndef reachableFunctions : Nat := %d\n\n", nMod, nReach)
 	b.WriteString("end NA.Gen.MapRangesDeep\n")
-	return b.String()
+	db.WriteString("]\n\nend NA.Gen.MapRangesDescr\n")
+	return b.String(), db.String()
 }
